@@ -22,7 +22,7 @@
    Not modelled (hypotheses about CPython): what PyGILState_Ensure/Release, PyThreadState_Clear/
    Delete do internally beyond counter / dict / deletion; allocation failures (the ignore_error
    paths of thread_canary_register); sub-interpreters. *)
-From Coq Require Import Arith List Bool Lia.
+From Coq Require Import Arith NArith List Bool Lia.
 Import ListNotations.
 
 Inductive thst := Alive | Exited.
@@ -273,4 +273,22 @@ Fixpoint mrun (n : nat) (s : state) (es : list mevent) : option (list (list nat)
       | None => None
       | Some s1 => match mrun n s1 rest with Some l => Some (observe n s1 e :: l) | None => None end
       end
+  end.
+
+(* compact encoding for the harness: macro event = 16 * kind + thread, kind 0 MCb / 1 MCbEnd /
+   2 MExit / 3 MFinalize; observations compared through two fingerprints computed here *)
+Definition decode_mev (x : nat) : mevent :=
+  match Nat.div x 16 with
+  | 0 => MCb (Nat.modulo x 16)
+  | 1 => MCbEnd (Nat.modulo x 16)
+  | 2 => MExit (Nat.modulo x 16)
+  | _ => MFinalize
+  end.
+Definition fpn (m b : N) (l : list nat) : N :=
+  fold_left (fun acc z => ((acc * b + N.of_nat z + 1) mod m)%N) l 7%N.
+Definition mrun_code (n : nat) (es : list nat) : option (N * N) :=
+  match mrun n init (map decode_mev es) with
+  | Some obs => let flat := concat obs in
+                Some (fpn 2305843009213693951 1000003 flat, fpn 2147483647 48271 flat)
+  | None => None
   end.
